@@ -1,11 +1,13 @@
 (* C07 proofs about Overlay/Robust.v.
 
    Part 1  basic facts (association lists, mutex lists)
-   Part 2  every procedure of the repaired model returns, with the same mutexes
-           held as on entry, keeps every stored tree, keeps "every listed instance
-           has its tree", and only emits disciplined accesses ([ext])
-   Part 3  step / trace theorems: no crash, no leaked mutex, lock discipline
-   Part 4  the next legitimate operation is served
+   Part 2  every procedure of every variant with F26 and F72 (the current code included)
+           returns, with the same mutexes held as on entry, keeps every stored tree,
+           finishes no run of the registered protocol it is not allowed to, keeps "every
+           listed instance has its tree", and only emits disciplined accesses ([ext])
+   Part 3  step / trace theorems: no crash, no leaked mutex, lock discipline, stored
+           trees and unfinished legitimate tokens are preserved by peer histories
+   Part 4  the next legitimate operation is served (after any history)
    Part 5  refutation witnesses for the unrepaired variants *)
 From Coq Require Import List Arith Bool Lia.
 Import ListNotations.
@@ -597,15 +599,22 @@ Proof.
   destruct (search t (tk_node k)) as [srvk|] eqn:Esk.
   2:{ eapply returns_weaken; [apply ret_returns|]. intros a m' _ _ f _ [E|[E _]] _; [discriminate|congruence]. }
   (* create the instance *)
+  assert (Eid : t_id t = tk_tree k) by (apply (proj2 Hi), Ht).
   eapply bind_returns.
-  { apply locked_returns with (Q := fun _ m' => os m' = set_insts (os m1) (k :: insts (os m1)));
+  { apply locked_returns with (Q := fun _ m' => os m' = put_tree t (set_insts (os m1) (k :: insts (os m1))));
       [exact C1|rewrite H1; reflexivity|hf|].
     eapply bind_returns; [apply access_returns; reflexivity|]. intros [] m2 X2 Ho2.
-    eapply returns_weaken.
+    eapply bind_returns.
     { apply modify_returns. repeat split; cbn [set_insts leaked store insts finished os].
       - intros x [<-|Hx]; [right|left; exact Hx]. rewrite Ho2. cbn [os]. eauto.
       - intros x _ HF. left. exact HF. }
-    intros a m' _ (Ho' & _). rewrite Ho', Ho2. reflexivity. }
+    intros [] m2' X2' (Ho2' & _).
+    eapply returns_weaken.
+    { unfold st_set. eapply with_store_returns; [| |reflexivity|].
+      - eapply clean_ext; [|exact X2']. eapply (clean_ext X (mkM (os m1) (LInst :: held m1) (evs m1))); [exact C1|exact X2].
+      - rewrite (ext_held _ _ _ X2'), (ext_held _ _ _ X2). cbn [held]. rewrite H1. reflexivity.
+      - apply sfo_put_tree. right. right. rewrite Ho2', Ho2. cbn [set_insts store os]. rewrite Eid. exact Ht1. }
+    intros a m' _ (_ & Ho'). rewrite Ho', Ho2', Ho2. reflexivity. }
   intros [] m2 X2 Ho2.
   assert (C2 : clean m2) by (eapply clean_ext; eassumption).
   assert (H2 : held m2 = [LTransmit]) by (rewrite (ext_held _ _ _ X2); exact H1).
@@ -620,7 +629,8 @@ Proof.
   assert (C3 : clean m3) by (eapply clean_ext; eassumption).
   assert (H3 : held m3 = [LTransmit]) by (rewrite (ext_held _ _ _ X3); exact H2).
   assert (Ht3 : lookup (tk_tree k) (store (os m3)) = Some (Have t)).
-  { rewrite Ho3, Ho2. cbn [set_configs set_insts store]. exact Ht1. }
+  { rewrite Ho3, Ho2. unfold put_tree. cbn [set_configs set_insts set_store set_removal store].
+    rewrite lookup_update, Eid, Nat.eqb_refl. reflexivity. }
   destruct (proto_known (tk_proto k)) eqn:Epk.
   - eapply bind_returns.
     { apply locked_returns with (Q := fun _ m' => os m' = os m3); [exact C3|rewrite H3; reflexivity|hf|].
@@ -803,22 +813,24 @@ Hypothesis H72 : f72 fx = true.
 Ltac hf := let a := fresh in let m := fresh in let H := fresh in
            intros a m H; cbn [os held evs]; tauto.
 
-(* requestTree: the message is parked; with F71 a peer that has not been asked is asked *)
+(* requestTree: the message is parked; the sender is asked for a tree nobody was asked for,
+   and with F71 also for a tree that others were asked for *)
 Lemma request_tree_returns : forall pm m,
   ready [] m ->
   returns X (request_tree fx pm) m
           (fun _ m' =>
              In pm (parked (os m')) /\
-             (f71 fx = true -> reachable (p_peer pm) = true ->
+             (reachable (p_peer pm) = true ->
               (lookup (tk_tree (p_to pm)) (store (os m)) = None \/
-               exists asked, lookup (tk_tree (p_to pm)) (store (os m)) = Some (Req asked) /\
-                             mem_nat (p_peer pm) asked = false) ->
+               (f71 fx = true /\
+                exists asked, lookup (tk_tree (p_to pm)) (store (os m)) = Some (Req asked) /\
+                              mem_nat (p_peer pm) asked = false)) ->
               In (ESend (p_peer pm) (RReqTree (tk_tree (p_to pm)))) (evs m') /\
               exists asked', lookup (tk_tree (p_to pm)) (store (os m')) = Some (Req asked'))).
 Proof.
   intros pm m R. destruct (f71 fx) eqn:H71.
   { eapply returns_weaken; [apply request_tree_returns_71; assumption|].
-    intros a m' _ (A & B). split; [exact A|]. intros _. exact B. }
+    intros a m' _ (A & B). split; [exact A|]. intros Hr [Hn|(_ & Hq)]; apply B; auto. }
   destruct R as (C & Hh & Hi). unfold request_tree. rewrite H71.
   set (id := tk_tree (p_to pm)). set (p := p_peer pm).
   eapply bind_returns.
@@ -833,26 +845,36 @@ Proof.
   assert (H1 : held m1 = []) by (rewrite (ext_held _ _ _ X1); exact Hh).
   assert (Hp1 : In pm (parked (os m1))).
   { rewrite Ho1. cbn [set_parked parked]. apply in_or_app. right. left. reflexivity. }
+  assert (Hs1 : store (os m1) = store (os m)) by (rewrite Ho1; reflexivity).
   eapply bind_returns; [apply st_lookup_returns; [exact C1|rewrite H1; reflexivity]|].
   intros e m2 X2 (-> & Ho2).
   assert (C2 : clean m2) by (eapply clean_ext; eassumption).
   assert (H2 : held m2 = []) by (rewrite (ext_held _ _ _ X2); exact H1).
-  destruct (lookup id (store (os m1))) as [[asked|t]|].
+  rewrite Hs1.
+  destruct (lookup id (store (os m))) as [[asked|t]|] eqn:El.
   1,2: (eapply returns_weaken; [apply ret_returns|]; intros a m' _ (_ & ->); rewrite Ho2;
-        split; [exact Hp1|intros E; discriminate E]).
-  eapply bind_returns; [apply st_register_returns; [exact C2|rewrite H2; reflexivity]|].
-  intros [] m3 X3 Hp3.
+        split; [exact Hp1|intros _ [E|(E & _)]; discriminate E]).
+  (* unknown id: register it, ask the sender *)
+  eapply bind_returns.
+  { unfold st_register. eapply with_store_returns; [exact C2|rewrite H2; reflexivity|reflexivity|apply sfo_register]. }
+  intros [] m3 X3 (_ & Ho3).
   assert (C3 : clean m3) by (eapply clean_ext; eassumption).
   assert (H3 : held m3 = []) by (rewrite (ext_held _ _ _ X3); exact H2).
+  assert (Hl3 : lookup id (store (os m3)) = Some (Req [])).
+  { rewrite Ho3, Ho2, Hs1, El. cbn [set_store store]. rewrite lookup_update, Nat.eqb_refl. reflexivity. }
+  assert (Hp3 : In pm (parked (os m3))).
+  { rewrite Ho3, Ho2. destruct (lookup id (store (os m1))); cbn [set_store parked]; exact Hp1. }
   eapply bind_returns; [eapply returns_weaken; [apply ret_returns|]; intros ? ? _ H; exact H|].
   intros [] m4 X4 (_ & ->).
-  eapply bind_returns; [apply send_returns|]. intros ok m5 X5 (_ & Ho5 & _).
-  assert (Hp5 : In pm (parked (os m5))) by (rewrite Ho5, Hp3, Ho2; exact Hp1).
+  eapply bind_returns; [apply send_returns|]. intros ok m5 X5 (Eok & Ho5 & Hsend).
+  assert (Hp5 : In pm (parked (os m5))) by (rewrite Ho5; exact Hp3).
   destruct ok.
-  - eapply returns_weaken; [apply ret_returns|]. intros a m' _ (_ & ->). split; [exact Hp5|intros E; discriminate E].
+  - eapply returns_weaken; [apply ret_returns|]. intros a m' _ (_ & ->). split; [exact Hp5|].
+    intros Hr _. split; [apply Hsend, Hr|]. rewrite Ho5. eauto.
   - eapply returns_weaken.
     { apply st_unregister_returns; [eapply clean_ext; eassumption|rewrite (ext_held _ _ _ X5); rewrite H3; reflexivity]. }
-    intros a m' _ Hp'. split; [rewrite Hp'; exact Hp5|intros E; discriminate E].
+    intros a m' _ Hp'. split; [rewrite Hp'; exact Hp5|].
+    intros Hr. fold p in Hr. rewrite Hr in Eok. discriminate Eok.
 Qed.
 
 (* the conditions under which TransmitMsg hands a message to the protocol's handler *)
@@ -872,9 +894,10 @@ Lemma transmit_returns : forall sender from to b m,
                             In (EDeliver k (tk_node f)) (evs m')) /\
                ((forall t, lookup (tk_tree k) (store (os m)) <> Some (Have t)) ->
                 In (mkP sender from k b) (parked (os m')) /\
-                (f71 fx = true -> reachable sender = true ->
+                (reachable sender = true ->
                  (lookup (tk_tree k) (store (os m)) = None \/
-                  exists asked, lookup (tk_tree k) (store (os m)) = Some (Req asked) /\ mem_nat sender asked = false) ->
+                  (f71 fx = true /\
+                   exists asked, lookup (tk_tree k) (store (os m)) = Some (Req asked) /\ mem_nat sender asked = false)) ->
                  In (ESend sender (RReqTree (tk_tree k))) (evs m') /\
                  exists asked', lookup (tk_tree k) (store (os m')) = Some (Req asked')))).
 Proof.
@@ -1365,7 +1388,7 @@ Proof.
   rewrite set_leaked_nil by exact L. reflexivity.
 Qed.
 
-(* one step of any variant with the repairs F26 F71 F72, outside the input classes of the
+(* one step of any variant with the repairs F26 and F72, outside the input classes of the
    crash / leak defects it still has *)
 Theorem step_safe_gen : forall fx s o,
   base_fixed fx -> Inv s -> benign fx s o ->
@@ -1446,7 +1469,7 @@ Proof.
   intros ops s I. apply trace_safe_gen; [apply all_fixed_base|exact I|apply benign_hist_all_fixed].
 Qed.
 
-(* the variant with F26 F71 F72 only: the five crash / leak defects are confined to their
+(* the variant with F26 F71 F72 and none of the crash / leak repairs: the five crash / leak defects are confined to their
    input classes *)
 Definition crash_unfixed : fixes := mkFixes false false false false true false true true.
 
@@ -1477,7 +1500,7 @@ Theorem known_tree_stays : forall ops s id t,
   lookup id (store (run all_fixed s ops)) = Some (Have t).
 Proof.
   induction ops as [|o r IH]; intros s id t I Hn Ht; [exact Ht|].
-  rewrite run_cons. destruct (step_safe s o I) as (_ & I' & _ & K & _).
+  rewrite run_cons. destruct (step_safe s o I) as (_ & I' & _ & K).
   apply IH; [exact I'| |].
   - intros o' Ho'. apply Hn. right. exact Ho'.
   - apply K; [apply Hn; left; reflexivity|exact Ht].
@@ -1616,17 +1639,17 @@ Qed.
 (* ... on a tree the server does not have: the message is parked and its sender is
    asked for the tree (also when the tree was requested before from other peers) *)
 Theorem asks_sender_for_tree : forall s p nf from k b,
-  f71 fx = true ->
   Inv s -> b <> BGarbage -> reachable p = true ->
   (lookup (tk_tree k) (store s) = None \/
-   exists asked, lookup (tk_tree k) (store s) = Some (Req asked) /\ mem_nat p asked = false) ->
+   (f71 fx = true /\
+    exists asked, lookup (tk_tree k) (store s) = Some (Req asked) /\ mem_nat p asked = false)) ->
   let r := step fx s (Recv p false nf (MProto from (Some k) b)) in
   r_out r = Ok /\
   In (ESend p (RReqTree (tk_tree k))) (r_events r) /\
   In (mkP p from k b) (parked (r_state r)) /\
   exists asked', lookup (tk_tree k) (store (r_state r)) = Some (Req asked').
 Proof using HB HC.
-  intros s p nf from k b H71 I Hb Hr Hs. pose proof I as (Hl & Hi).
+  intros s p nf from k b I Hb Hr Hs. pose proof I as (Hl & Hi).
   edestruct (step_of_returns fx s (Recv p false nf (MProto from (Some k) b))) as (m' & E & Hx & Hq); [exact I| |].
   { cbn [run_op process touches].
     destruct b; [| |contradiction]; (apply transmit_returns; [(split; [|split]; first [assumption|reflexivity])|discriminate]). }
@@ -1634,8 +1657,8 @@ Proof using HB HC.
   assert (Hq' : forall k0, Some k = Some k0 -> _) by (destruct b; [exact Hq|exact Hq|contradiction]).
   destruct (Hq' k eq_refl) as (_ & Hp).
   destruct Hp as (Hpark & Hask).
-  { intros t Ht. cbn [os] in Ht. destruct Hs as [Hs|(a & Hs & _)]; rewrite Hs in Ht; discriminate. }
-  destruct (Hask H71 Hr Hs) as (Hsend & Hreq).
+  { intros t Ht. cbn [os] in Ht. destruct Hs as [Hs|(_ & a & Hs & _)]; rewrite Hs in Ht; discriminate. }
+  destruct (Hask Hr Hs) as (Hsend & Hreq).
   split; [apply In_rev_iff; exact Hsend|]. split; assumption.
 Qed.
 
@@ -1659,6 +1682,26 @@ Proof using HB HC.
   cbn zeta. rewrite E. cbn [r_out r_events r_state]. split; [reflexivity|].
   destruct (Hq tm ro t pm f eq_refl eq_refl Hz Hm (ex_intro _ asked Hreq) Hf W) as (Hs & Hd).
   split; [apply Hs; intros []|apply In_rev_iff; exact Hd].
+Qed.
+
+(* after ANY history of peer messages and local calls that neither is the run's own Done nor a
+   service re-registering its tree: a legitimate message of a run of the registered protocol
+   (token not finished before, addressed to a node of the stored tree, sent by the server of a
+   node of that tree) reaches the handler. Peers cannot finish, forge away or wedge it. *)
+Theorem still_serves_after_any_history : forall ops s p nf from k t f,
+  Inv s -> lookup (tk_tree k) (store s) = Some (Have t) ->
+  mem_tok k (finished s) = false -> search t (tk_node k) <> None -> proto_known (tk_proto k) = true ->
+  deliverable t p from BPing f ->
+  (forall o, In o ops -> ~ p_tree (touches o) (tk_tree k) /\ o <> LocalDone k) ->
+  let r := step fx (run fx s ops) (Recv p false nf (MProto from (Some k) BPing)) in
+  r_out r = Ok /\ In (EDeliver k (tk_node f)) (r_events r).
+Proof using HB HC.
+  intros ops s p nf from k t f I Ht Hf Hs Hp Hd Hops.
+  apply serves_protocol_message with (t := t).
+  - apply trace_safe_gen; [exact HB|exact I|apply benign_hist_crash_fixed, HC].
+  - apply known_tree_stays_gen; try assumption. intros o Ho. apply Hops, Ho.
+  - split; [|split; [right; split; assumption|exact Hd]].
+    cbn [p_to]. apply legit_token_stays_unfinished; try assumption. intros o Ho. apply Hops, Ho.
 Qed.
 
 End Serves.
